@@ -623,7 +623,7 @@ pub fn run(scn: &PnmScenario, record: bool) -> RunResult {
     let streamed = catch(|| drive_reader(scn.reader.stack, src, ReadPnm));
     let delivered = core.borrow().pos;
     let ledger = log.borrow().ledger.clone();
-    let (rd_err, eof_stop, eof_resumed) = (ledger.get(K::read_err), ledger.get(K::early_eof), ledger.get(K::early_eof_resumed));
+    let (rd_err, eof_stop, eof_resumed) = (ledger.get(K::read_err) + ledger.get(K::read_err_after_eof), ledger.get(K::early_eof), ledger.get(K::early_eof_resumed));
     let clean_stream = rd_err + eof_stop + eof_resumed == 0;
     let streamed_out = match streamed {
         Ok(r) => {
